@@ -1,9 +1,11 @@
 (* C10: model of the presence machinery of tinode/chat: server/pres.go (procPresReq,
-   presUsersOfInterest, presSubsOnline/Offline, presSingleUserOffline(Offline),
-   presOfflineFilter), topic.go (passesPresenceFilters, handlePresence,
-   broadcastToSessions' pres branch, subscriptionReply online accounting,
-   sendImmediateSubNotifications, sendSubNotifications, handleLeaveRequest,
-   sessToForeground, handleTopicTimeout, notifySubChange, evictUser), hub.go routeSrv,
+   presUsersOfInterest, presSubsOnline/Offline, presSingleUserOffline(Offline), infoSubsOffline,
+   presPubMessageCount, presPubMessageDelete, presOfflineFilter), topic.go (passesPresenceFilters,
+   handleServerMsg, handlePresence, broadcastToSessions' pres and info branches, subscriptionReply
+   online accounting, sendImmediateSubNotifications, sendSubNotifications, handleLeaveRequest,
+   replyLeaveUnsub for groups and p2p, sessToForeground, handleTopicTimeout, notifySubChange,
+   evictUser, saveAndBroadcastMessage, handleNoteBroadcast for kp/read/recv, replyDelMsg),
+   session.go note, hub.go routeSrv and the deletion of a p2p topic both parties left,
    init_topic.go loadContacts.
 
    Several users, their 'me' topics, p2p topics and group topics run side by side.
@@ -521,7 +523,7 @@ Inductive op :=
 | New (sid u g : N) (bkg : bool)          (* {sub topic:"new.."}: create group g owned by u *)
 | Att (sid u : N) (r : tref) (bkg : bool) (* {sub}; the session's background flag is taken when it has no other subscription *)
 | Det (sid : N) (r : tref)                (* {leave} *)
-| Unsub (sid : N) (r : tref)              (* {leave unsub:true}, groups *)
+| Unsub (sid : N) (r : tref)              (* {leave unsub:true}, groups and p2p *)
 | Disc (sid : N)                          (* connection closed: Session.cleanUp *)
 | Fg (sid : N)                            (* background timer: Session.onBackgroundTimer *)
 | Want (sid : N) (r : tref) (mask : N)    (* {set sub mode} on the own subscription *)
